@@ -431,6 +431,30 @@ pub fn gen(prop: &str, rng: &mut Rng, thorough: bool, out: &mut Sink) {
             _ => "defs_wordpiece",
         });
         let stripped = if prop == "C09" { guarded(|| Kitoken::from_definition(strip_for_ref(&tk.def)).ok()).flatten() } else { None };
+        if prop == "C18" {
+            // the clean-up steps at their boundary: texts that consist of a step's character only (fewer copies than
+            // the step removes from both sides together, as many, more), encoded and decoded on the implementation
+            if let Some(tok) = &tk.tok {
+                let chars: Vec<char> = tk.def.config.decoding.iter().filter_map(|d| match d {
+                    Decoding::Strip { character, .. } | Decoding::Extend { character, .. } | Decoding::Collapse { character } => Some(*character),
+                    _ => None,
+                }).collect();
+                for c in chars {
+                    for k in 1..=5usize {
+                        let text: String = std::iter::repeat(c).take(k).collect();
+                        let r = guarded(|| tok.encode(&text, false).map(|ids| tok.decode(&ids, true).map(|b| b.len())));
+                        let a = match r {
+                            Some(Ok(Ok(len))) => format!("OK {}", len),
+                            Some(Ok(Err(_))) => "ERR decode".into(),
+                            Some(Err(_)) => "ERR encode".into(),
+                            None => "PANIC".into(),
+                        };
+                        lines.push(format!("IMPLONLY {} cleanup-boundary {} :: {}", tk.slot, hex(text.as_bytes()), a));
+                        out.count("implonly_cleanup_boundary");
+                    }
+                }
+            }
+        }
         for _ in 0..ntexts {
             let mut text = text_for_wide(rng, &tk.def, true, prop == "C18");
             if rng.chance(1, 8) {
